@@ -261,6 +261,11 @@ func (mc *MemoryChannel) appendRdb(writer *MemoryRdbWriter, buf []byte) (int, er
 }
 
 func (mc *MemoryChannel) finishRdb(writer *MemoryRdbWriter, err error) {
+	if err == nil && writer.received.Load() != writer.rdb.size {
+		// the writer was closed before the announced size has arrived (the input was stopped in the
+		// middle of the transfer) : an incomplete snapshot must not stay cached as replayable
+		err = io.ErrUnexpectedEOF
+	}
 	seg := writer.currentSegment()
 	if seg != nil {
 		seg.close(err)
@@ -853,11 +858,12 @@ func (mr *MemoryReader) Close() {
 }
 
 type MemoryRdbWriter struct {
-	ch      *MemoryChannel
-	reader  io.Reader
-	rdb     *memoryRdb
-	current atomic.Pointer[memorySegment]
-	wait    usync.WaitCloser
+	ch       *MemoryChannel
+	reader   io.Reader
+	rdb      *memoryRdb
+	current  atomic.Pointer[memorySegment]
+	received atomic.Int64 // bytes of the snapshot taken into the cache so far
+	wait     usync.WaitCloser
 }
 
 func newMemoryRdbWriter(ch *MemoryChannel, reader io.Reader, rdb *memoryRdb) *MemoryRdbWriter {
@@ -919,6 +925,7 @@ func (w *MemoryRdbWriter) ingest() error {
 		if n > 0 {
 			written, werr := w.ch.appendRdb(w, buf[:n])
 			remain -= int64(written)
+			w.received.Add(int64(written))
 			if werr != nil {
 				return fmt.Errorf("rdb writer error : %w", werr)
 			}
